@@ -6,6 +6,9 @@ props = [json.loads(l) for l in open(os.path.join(V, "properties.jsonl"))]
 
 # id -> (level, technique, level text, level note, design ref)
 CLAIMED = {
+ "C07": ("exploration", "deterministic simulation: 1-4 reader threads (short reads, long-held guards, mapped guards, two-halves reads, copied(), watcher polling) against a stream of reloads, both RwLock preference policies and both lock front-ends",
+         "Seeded search over interleavings of readers and the reloader around the per-entry RwLock; oracles: self-checking values (no mixture), value / reload id / liveness constant while a guard is alive, hot_reload returns only when the notified content is installed, every creation/drop performed by the reloader lies inside a hot_reload call (ledger sequence numbers), nothing moves at quiescence, watcher polling never reads an older value than the reported reload. Sampling, not proof.",
+         "swap_any has no scheduling point inside, so a lock-bypassing reader cannot observe a half-written value under engine A (stated in the evidence).", "DESIGN.md §7 C07"),
  "C01": ("exploration", "deterministic simulation: seeded schedules of 2-4 threads racing load/get_cached/get_or_insert/contains on hot keys with filler bursts (rehash), shard/hash/lock-policy knobs; pointer identity, drop ledger, linearizability against an insert-once slot",
          "Seeded search over interleavings (random, sticky, PCT) of racing loaders and inserters on 1-3 hot keys x 3 kinds of types with unrelated insertion bursts, on 1..256 shards (incl. non-power-of-two counts), through AssetCache and AnyCache; every source read is a scheduling point so several loaders are past the miss before any inserts. Oracles: same address for every handle of a key, one winner observed by all, losers dropped, stored value never dropped while reachable (ledger), per-key history linearizable against an insert-once slot, handles re-read after bursts, remove/take/clear between phases. Sampling, not proof.",
          "Shard RwLocks are simulator models; memory errors proper (use after free) are only seen as crashes of the worker process, which are confirmed and minimised in fresh processes.", "DESIGN.md §7 C01"),
